@@ -314,6 +314,18 @@ impl DecodeBuffer {
     }
 }
 
+#[cfg(zstd_rs_verif)]
+impl DecodeBuffer {
+    /// Verification hook: (cap, head, tail) of the ring buffer, read-only.
+    pub fn verif_ring_state(&self) -> (usize, usize, usize) {
+        self.buffer.verif_state()
+    }
+    /// Verification hook: the output counter used by the dictionary reach test, read-only.
+    pub fn verif_total_output_counter(&self) -> u64 {
+        self.total_output_counter
+    }
+}
+
 /// Like Write::write_all but returns partial write length even on error
 fn write_all_bytes(mut sink: impl Write, buf: &[u8]) -> (usize, Result<(), Error>) {
     let mut written = 0;
